@@ -165,7 +165,7 @@ func (r *rtRun) onCall(h int, o, n *RC, err error) {
 // ---------- one schedule ----------
 
 type rtProfile struct {
-	name                                     string
+	name                                      string
 	mon, cb, begin, cli, ack, cancel, cancel0 int
 }
 
@@ -179,13 +179,13 @@ var rtProfiles = []rtProfile{
 }
 
 type rtConfig struct {
-	nsrc, nclients, steps int
+	nsrc, nclients, steps     int
 	skipInit, delay, suppress bool
-	profile  rtProfile
-	init     []int
-	stuck    bool // a callback that never returns
-	noDone   bool
-	focus    string
+	profile                   rtProfile
+	init                      []int
+	stuck                     bool // a callback that never returns
+	noDone                    bool
+	focus                     string
 }
 
 func (r *rtRun) ask(s string) string { return r.c.Drv.Ask(s) }
